@@ -2,13 +2,15 @@
 # Offline build of the whole framework from files on disk (MANIFEST.setup_cmd).
 set -e
 cd "$(dirname "$0")"
+REPO="${VERIF_REPO:-/repo}"
+sed -i "s|^replace github.com/tsawler/tabula => .*|replace github.com/tsawler/tabula => $REPO|" harness/go.mod
 export GOFLAGS=-mod=mod GOPROXY=off GOSUMDB=off GOTOOLCHAIN=local
 mkdir -p .work/bin evidence
-cp /repo/go.sum harness/go.sum
+cp "$REPO/go.sum" harness/go.sum
 (cd harness && go build -tags verif -o ../.work/bin/harness .)
 (cd extract && go build -o ../.work/bin/extract .)
 rm -rf .work/gen.tmp && mkdir -p .work/gen.tmp
-./.work/bin/extract -repo /repo -out .work/gen.tmp
+./.work/bin/extract -repo "$REPO" -out .work/gen.tmp
 mkdir -p lean/TabulaModel/Gen
 for f in .work/gen.tmp/*.lean; do
   cmp -s "$f" "lean/TabulaModel/Gen/$(basename "$f")" || cp "$f" "lean/TabulaModel/Gen/$(basename "$f")"
